@@ -92,6 +92,10 @@ fn fill_len(p: &mut P, block: usize) -> usize {
     if p.below(400) == 0 {
         return 270_000 + p.below(64) as usize;
     }
+    // whole blocks and a little more (bulk paths), also from an exhausted buffer
+    if p.below(12) == 0 {
+        return block * (1 + p.below(3) as usize) + [0usize, 0, 1, 8, 952][p.below(5) as usize];
+    }
     match p.below(8) {
         0..=3 => p.below(18) as usize,
         4 => block - 1 + p.below(3) as usize,
@@ -99,6 +103,10 @@ fn fill_len(p: &mut P, block: usize) -> usize {
         6 => 0,
         _ => p.below(300) as usize,
     }
+}
+
+thread_local! {
+    static OFFSET: std::cell::Cell<usize> = std::cell::Cell::new(1);
 }
 
 fn run_seeded<R: RngCore + SeedableRng + Clone>(
@@ -135,10 +143,13 @@ fn run_seeded<R: RngCore + SeedableRng + Clone>(
             0..=3 => { let v = g.next_u32(); h.b(&v.to_le_bytes()); v as u64 }
             4..=6 => { let v = g.next_u64(); h.b(&v.to_le_bytes()); v }
             7..=9 => {
-                let mut b = vec![0u8; fill_len(p, block)];
-                g.fill_bytes(&mut b);
-                h.b(&b);
-                b.len() as u64
+                // destinations start at every alignment in turn
+                let n = fill_len(p, block);
+                let off = OFFSET.with(|c| { let v = c.get(); c.set((v + 3) % 8); v });
+                let mut b = vec![0u8; n + 8];
+                g.fill_bytes(&mut b[off..off + n]);
+                h.b(&b[off..off + n]);
+                n as u64
             }
             10 => {
                 if let Some((j, lj)) = jump {
@@ -269,12 +280,29 @@ fn main() {
             13 => ("Xoshiro512StarStar", run_seeded::<Xoshiro512StarStar>(&mut p, 64, 8, j!(Xoshiro512StarStar), sample)),
             14 => ("SplitMix64", run_seeded::<SplitMix64>(&mut p, 8, 8, None, sample)),
             15 => ("XorShiftRng", run_seeded::<rand_xorshift::XorShiftRng>(&mut p, 16, 8, None, sample)),
-            16 => ("Hc128Rng", run_seeded::<rand_hc::Hc128Rng>(&mut p, 32, 64, None, sample)),
+            16 => {
+                let (c, d, f) = run_seeded::<rand_hc::Hc128Rng>(&mut p, 32, 64, None, sample);
+                // plus a sweep of cheap constructions (rare-seed slips in the key expansion)
+                let mut h = H(0xcbf29ce484222325);
+                let mut bad = None;
+                for k in 0..200u64 {
+                    let mut s = [0u8; 32];
+                    s[..8].copy_from_slice(&(i.wrapping_mul(200).wrapping_add(k)).to_le_bytes());
+                    if k % 2 == 1 { for b in s[8..].iter_mut() { *b = p.u() as u8; } }
+                    match catch_unwind(AssertUnwindSafe(|| rand_hc::Hc128Rng::from_seed(s).next_u32())) {
+                        Ok(v) => h.b(&v.to_le_bytes()),
+                        Err(_) => { bad = Some(k); break; }
+                    }
+                }
+                let d = match bad { Some(k) => format!("panic@seed_sweep:{}", k), None => format!("{}{:08x}", d, h.0 as u32) };
+                ("Hc128Rng", (c, d, f))
+            }
             17 => ("IsaacRng", run_seeded::<rand_isaac::IsaacRng>(&mut p, 32, 1024, None, sample)),
             18 => ("Isaac64Rng", run_seeded::<rand_isaac::Isaac64Rng>(&mut p, 32, 2048, None, sample)),
             _ => ("JitterRng", run_jitter(&mut p, sample)),
         };
         writeln!(out, "case {} {} {} {}", i, name, ctor, dig).unwrap();
+        out.flush().unwrap();
         if sample {
             let vals: Vec<String> = first.iter().map(|v| format!("{:x}", v)).collect();
             writeln!(out, "values {} {}", i, vals.join(",")).unwrap();
